@@ -132,7 +132,7 @@ def main():
     kwargs = dict(verbose=False, max_procs=plan['max_procs'], perform_memory_check=False, avoid_crashes=plan.get('avoid_crashes', True))
     if attempt > 0:
         kwargs['force_restart'] = False
-    study_dir = os.path.join(workdir, 'study')
+    study_dir = os.path.join(workdir, plan.get('dir_name', 'study'))
     if attempt == 0:
         os.makedirs(study_dir, exist_ok=True)
     result = {'attempt': attempt}
